@@ -8,12 +8,22 @@ use crate::util::*;
 
 pub const CLOSE_MODES: [&str; 3] = ["flush", "into_inner", "drop"];
 
+thread_local! {
+    /// text repertoire of the current session: 0 = ASCII only, 1 = any Unicode (UTF-8 sessions),
+    /// 2 = Latin-1 letters (sessions that move between Windows-1252, ISO 8859-1 and UTF-8)
+    pub static REPERTOIRE: std::cell::Cell<u8> = std::cell::Cell::new(1);
+}
+
 pub fn gen_strings(rng: &mut Rng, non_ascii: bool) -> String {
     let base = ["a", "b", "ab", "Zed", "x", "y", "hello world", "A.b_9", "", "b", "a", "zz"];
-    let uni = ["\u{e9}", "\u{65e5}\u{672c}", "na\u{ef}ve", "\u{1f600}", "\u{feff}abc", "\u{ff}\u{fe}AB"];
+    let uni: &[&str] = if REPERTOIRE.with(|r| r.get()) == 2 {
+        &["caf\u{e9}", "\u{fc}ber", "\u{f1}", "na\u{ef}ve", "\u{e9}\u{e9}\u{e9}", "\u{ff}\u{fe}AB"]
+    } else {
+        &["\u{e9}", "\u{65e5}\u{672c}", "na\u{ef}ve", "\u{1f600}", "\u{feff}abc", "\u{ff}\u{fe}AB"]
+    };
     match rng.below(20) {
-        0 if non_ascii => rng.pick(&uni).to_string(),
-        1 if non_ascii => rng.pick(&uni).to_string(),
+        0 if non_ascii => rng.pick(uni).to_string(),
+        1 if non_ascii => rng.pick(uni).to_string(),
         2 => "q".repeat(rng.below(300) as usize),
         _ => rng.pick(&base).to_string(),
     }
@@ -38,8 +48,9 @@ pub fn gen_schema(rng: &mut Rng, name: &str, wide: bool) -> (String, Vec<ColDef>
         c.localizable = rng.chance(1, 8);
         match ct {
             CT::I16 | CT::I32 => {
-                if rng.chance(1, 4) {
-                    c.range = Some((-5, 100));
+                if rng.chance(1, 3) {
+                    // declared ranges: narrow, wider than a 16-bit cell can hold, touching the reserved minimum
+                    c.range = Some(*rng.pick(&[(-5, 100), (-5, 100), (1, 100000), (-40000, 10), (-32768, 10), (0, 32768)]));
                 }
             }
             CT::Str(_) => {
@@ -52,6 +63,11 @@ pub fn gen_schema(rng: &mut Rng, name: &str, wide: bool) -> (String, Vec<ColDef>
             }
         }
         cols.push(c);
+    }
+    if cols.len() > 1 && rng.chance(1, 4) {
+        // primary key columns need not lead the table
+        let k = 1 + rng.below(cols.len() as u64 - 1) as usize;
+        cols.swap(0, k);
     }
     (name.to_string(), cols)
 }
@@ -72,7 +88,12 @@ pub fn gen_value(rng: &mut Rng, c: &ColDef, non_ascii: bool, allow_invalid: bool
     match c.ct {
         CT::I16 => {
             let (lo, hi) = c.range.unwrap_or((-32767, 32767));
-            V::Int(*rng.pick(&[lo.max(-32767), hi.min(32767), 0, 1, 2, 3, 4, 5, 7, -1]).clamp(&lo.max(-32767), &hi.min(32767)))
+            if allow_invalid && rng.chance(1, 12) {
+                // inside the declared range but outside what a 16-bit cell can hold (or the reserved minimum)
+                return V::Int(*rng.pick(&[hi, lo, 65541, 32768, -32768, 65536 + 7]));
+            }
+            let (lo, hi) = (lo.max(-32767), hi.min(32767));
+            V::Int(*rng.pick(&[lo, hi, 0, 1, 2, 3, 4, 5, 7, -1]).clamp(&lo, &hi))
         }
         CT::I32 => {
             let (lo, hi) = c.range.unwrap_or((-2147483647, 2147483647));
@@ -160,13 +181,18 @@ pub struct HistCfg {
 pub fn gen_session(out: &mut Out, rng: &mut Rng, cfg: &HistCfg) {
     let pt = rng.below(3);
     out.req("new", format!("new {pt}"));
-    let mut non_ascii = cfg.non_ascii;
-    if rng.chance(1, 4) {
-        let cp = *rng.pick(&["UsAscii", "Windows1252", "Windows932", "Utf8", "MacintoshRoman", "Iso88597"]);
+    // the session's text repertoire decides which code pages it may move between
+    let kind: u8 = if !cfg.non_ascii { 0 } else { *rng.pick(&[1u8, 1, 1, 0, 2]) };
+    REPERTOIRE.with(|r| r.set(kind));
+    let non_ascii = kind != 0;
+    let pages: &[&str] = match kind {
+        0 => &["UsAscii", "Windows1252", "Windows932", "Utf8", "MacintoshRoman", "Iso88597", "Windows1251", "Windows936"],
+        1 => &["Utf8"],
+        _ => &["Windows1252", "Utf8", "Iso88591", "Windows1252"],
+    };
+    if rng.chance(1, 4) || kind == 2 {
+        let cp = *rng.pick(pages);
         out.req("set_db_cp", format!("set_db_cp {cp}"));
-        if cp != "Utf8" {
-            non_ascii = false; // the model covers non-ASCII text under UTF-8 only
-        }
     }
     let mut db = RefDb::default();
     let names = ["A", "B", "Tbl3", "Long_Table.Name9"];
@@ -198,9 +224,10 @@ pub fn gen_session(out: &mut Out, rng: &mut Rng, cfg: &HistCfg) {
                 let mut r: Vec<V> = tab.cols.iter().map(|c| gen_value(rng, c, non_ascii, cfg.invalid)).collect();
                 if rng.chance(2, 3) {
                     // freshen the first key column
-                    if let V::Int(_) = r[0] {
-                        let (lo, hi) = tab.cols[0].range.unwrap_or((-30000, 30000));
-                        r[0] = V::Int(rng.range(lo.max(-30000) as i64, hi.min(30000) as i64) as i32);
+                    let ki = tab.cols.iter().position(|c| c.key).unwrap_or(0);
+                    if let V::Int(_) = r[ki] {
+                        let (lo, hi) = tab.cols[ki].range.unwrap_or((-30000, 30000));
+                        r[ki] = V::Int(rng.range(lo.max(-30000) as i64, hi.min(30000) as i64) as i32);
                     }
                 }
                 if cfg.invalid && rng.chance(1, 30) {
@@ -218,7 +245,8 @@ pub fn gen_session(out: &mut Out, rng: &mut Rng, cfg: &HistCfg) {
             let mut ups: Vec<(String, V)> = vec![];
             let k = 1 + rng.below(2) as usize;
             for _ in 0..k {
-                let i = if cfg.key_updates && rng.chance(1, 2) { 0 } else { rng.below(tab.cols.len() as u64) as usize };
+                let ki = tab.cols.iter().position(|c| c.key).unwrap_or(0);
+                let i = if cfg.key_updates && rng.chance(1, 2) { ki } else { rng.below(tab.cols.len() as u64) as usize };
                 ups.push((tab.cols[i].name.clone(), gen_value(rng, &tab.cols[i], non_ascii, cfg.invalid)));
             }
             if cfg.invalid && rng.chance(1, 25) {
@@ -280,6 +308,20 @@ pub fn gen_session(out: &mut Out, rng: &mut Rng, cfg: &HistCfg) {
                 5 => out.req("sum_set", format!("sum_set langs {}", rng.pick(&["1033", "1033,1041", "-"]))),
                 6 => out.req("sum_clear", format!("sum_clear {}", rng.pick(&["author", "title", "wc", "arch"]))),
                 _ => out.req("sum_set", format!("sum_set ctime {}.{}", rng.range(-1000, 2_000_000_000), rng.below(1_000_000_000))),
+            }
+        } else if choice < 86 && cfg.summary && rng.chance(1, 3) {
+            // change the database code page in the middle of a session (sometimes as the only
+            // change before the next save)
+            let cp = *rng.pick(pages);
+            if rng.chance(1, 2) {
+                out.req("snapshot", "snapshot".into());
+                out.req("reopen", format!("reopen {}", rng.pick(&CLOSE_MODES)));
+                out.req("snapshot", "snapshot".into());
+            }
+            out.req("set_db_cp", format!("set_db_cp {cp}"));
+            if rng.chance(1, 2) {
+                out.req("snapshot", "snapshot".into());
+                out.req("reopen", format!("reopen {}", rng.pick(&CLOSE_MODES)));
             }
         } else if choice < 88 {
             // create another table or drop one (possibly still holding rows)
